@@ -21,11 +21,11 @@ func parseExprText(src string) string {
 		return "reject"
 	}
 	if len(prog.Body) != 1 {
-		return "reject:statements"
+		return "reject" // more than one statement: not an expression of the fragment
 	}
 	es, ok := prog.Body[0].(*ast.ExpressionStatement)
 	if !ok {
-		return "reject:" + astx.Kind(prog.Body[0])
+		return "reject" // not an expression statement
 	}
 	d := fromAST(es.Expression).String()
 	if strings.Contains(d, "other:") {
